@@ -13,6 +13,14 @@ class FragRaise(Exception):
     pass
 
 
+class _Break(Exception):
+    pass
+
+
+class _Continue(Exception):
+    pass
+
+
 class FragReturn(Exception):
     def __init__(self, value):
         self.value = value
@@ -79,7 +87,32 @@ def run_fragment(body: Sequence[ast.stmt], names: Dict[str, Any], attrs: Optiona
                     raise Unfoldable("range bounds")
                 for i in range(*args):
                     env[st.target.id] = i
-                    run(st.body)
+                    try:
+                        run(st.body)
+                    except _Break:
+                        break
+                    except _Continue:
+                        continue
+            elif isinstance(st, ast.While):
+                while True:
+                    steps[0] += 1
+                    if steps[0] > max_steps:
+                        raise Unfoldable("step budget exhausted")
+                    t = fold(st.test)
+                    if isinstance(t, list):
+                        raise Unfoldable("tensor-valued condition")
+                    if not t:
+                        break
+                    try:
+                        run(st.body)
+                    except _Break:
+                        break
+                    except _Continue:
+                        continue
+            elif isinstance(st, ast.Break):
+                raise _Break()
+            elif isinstance(st, ast.Continue):
+                raise _Continue()
             elif isinstance(st, ast.If):
                 t = fold(st.test)
                 if isinstance(t, list):
